@@ -147,3 +147,32 @@ func TestE2E(t *testing.T) {
 		checkE2E(t, c)
 	})
 }
+
+// TestManyRetained: one filter matching many retained topics (a fleet of devices each with a
+// retained status): N retained publishes on r/<i>/s (some cleared again), then clients
+// subscribe with r/#, r/+/s, # at QoS 0/1 — every matching retained message must arrive
+// exactly once, flagged, whatever N is (N straddles the usual queue and batch sizes).
+func TestManyRetained(t *testing.T) {
+	rapid.Check(t, func(t *rapid.T) {
+		n := rapid.SampledFrom([]int{8, 24, 25, 26, 27, 40, 64, 65, 130, 300}).Draw(t, "n")
+		c := E2E{Nodes: rapid.IntRange(1, 2).Draw(t, "nodes"), Clients: 4}
+		c.Steps = append(c.Steps, sim.Step{Op: "connect", C: 0, ClientID: "c0", KeepAlive: 6000})
+		for i := 0; i < n; i++ {
+			c.Steps = append(c.Steps, sim.Step{Op: "pub", C: 0, Topic: fmt.Sprintf("r/%d/s", i), Payload: fmt.Sprintf("state-%d", i), Retain: true, PQoS: byte(i % 2)})
+		}
+		cleared := rapid.IntRange(0, 3).Draw(t, "cleared")
+		for i := 0; i < cleared; i++ {
+			c.Steps = append(c.Steps, sim.Step{Op: "pub", C: 0, Topic: fmt.Sprintf("r/%d/s", rapid.IntRange(0, n-1).Draw(t, "clearedTopic")), Payload: "", Retain: true})
+		}
+		for ci := 1; ci <= 3; ci++ {
+			c.Steps = append(c.Steps, sim.Step{Op: "connect", C: ci, Node: rapid.IntRange(0, c.Nodes-1).Draw(t, "node"), ClientID: fmt.Sprintf("c%d", ci), KeepAlive: 6000})
+			st := sim.Step{Op: "sub", C: ci, Filters: []string{rapid.SampledFrom([]string{"r/#", "r/+/s", "#", "r/1/#", "+/+/s"}).Draw(t, "filter")}, QoS: []int{rapid.IntRange(0, 1).Draw(t, "qos")}}
+			if rapid.IntRange(0, 3).Draw(t, "second") == 0 {
+				st.Filters = append(st.Filters, "r/2/s")
+				st.QoS = append(st.QoS, 0)
+			}
+			c.Steps = append(c.Steps, st)
+		}
+		checkE2E(t, c, "many-retained", fmt.Sprintf("n:%d", n))
+	})
+}
